@@ -5,6 +5,8 @@ from __future__ import annotations
 import copy, json, random
 
 MULTS = [(0, None), (1, None), (0, 1), (1, 1), (0, 3)]
+# a declared maximum of 0 (`0` / `0..0`): a field that may hold nothing (the generated class must say maxItems 0)
+MULT_ZERO = (0, 0)
 TTC_DEF = [None,
            {'type': 'function', 'name': 'Enabled', 'arguments': []},
            {'type': 'function', 'name': 'Disabled', 'arguments': []},
@@ -223,6 +225,8 @@ class LangGen:
                 # unambiguous); language-graph level only: no class can be generated for it (KF-C06-1)
                 lf = rf = f'p{fcount}'
             lm, rm = r.choice(MULTS), r.choice(MULTS)
+            if r.random() < self.k.get('zero_mult', 0.03): lm = MULT_ZERO
+            if r.random() < self.k.get('zero_mult', 0.03): rm = MULT_ZERO
             cand = {'name': nm, 'meta': {} if r.random() < 0.7 else {'user': 'assoc info'},
                     'leftAsset': la, 'leftField': lf, 'leftMultiplicity': {'min': lm[0], 'max': lm[1]},
                     'rightAsset': ra, 'rightField': rf, 'rightMultiplicity': {'min': rm[0], 'max': rm[1]}}
@@ -422,8 +426,9 @@ def gen_model(rnd: random.Random, spec, n_assets=None, allow_abstract=False, col
         R = [x for x in assets if a['rightAsset'] in anc(x['type'])]
         if not L or not R: continue
         for _ in range(rnd.choice([0, 1, 1, 2, 3])):
-            lmax = a['leftMultiplicity']['max'] or 3
-            rmax = a['rightMultiplicity']['max'] or 3
+            lmax = 3 if a['leftMultiplicity']['max'] is None else a['leftMultiplicity']['max']
+            rmax = 3 if a['rightMultiplicity']['max'] is None else a['rightMultiplicity']['max']
+            if lmax == 0 or rmax == 0: break       # a field with maximum 0 holds nothing: no link of this association
             left = rnd.sample(L, rnd.randint(1, min(len(L), lmax)))
             right = rnd.sample(R, rnd.randint(1, min(len(R), rmax)))
             cls = assoc_class_name(spec, a)
